@@ -134,7 +134,7 @@ fn run_history<F: fmt::Format, A: Atomicity>(fmt_name: &str, ops: &[Value], slot
             },
         };
         out.line(&json!({"ev":"op","case":id,"op":op["op"],"i":op["i"],"j":op["j"],"a":op["a"],"b":op["b"],"x":op["x"],
-                         "res":res,"snap":snap}));
+                         "res":res,"snap":snap,"panicked":dead}));
     }
     crate::alloc::on();
     drop(p);
